@@ -314,6 +314,8 @@ Definition head_nid (e : expr) : nid :=
   | EQual t _ => match t with TMName o => o_nid o | TMSel _ _ o => o_nid o | _ => 0 end
   end.
 
+(* a deferred constant must not be used before its full declaration (LRM 6.4.2.2) *)
+Definition is_deferred (b : binding) : bool := match b_kind b with BDeferred _ => true | _ => false end.
 Definition value_types (bs : list binding) : list sty :=
   flat_map (fun b => match b_kind b with BObj _ _ t => [t] | BLit t => [t] | _ => [] end) bs.
 Definition obj_of_bindings (bs : list binding) : option (ocls * omode * sty) :=
@@ -457,8 +459,8 @@ Fixpoint interp (G : env) (e : expr) {struct e} : res (list sty) :=
   end
 with interp_name (G : env) (n : name) {struct n} : res (list sty) :=
   match n with
-  | NId o => bs <- vis_occ G o ;; Ok (value_types bs)
-  | NSel l p o => bs <- sel_item G l p o ;; Ok (value_types bs)
+  | NId o => bs <- vis_occ G o ;; guard (negb (existsb is_deferred bs)) (o_nid o) Other ;;; Ok (value_types bs)
+  | NSel l p o => bs <- sel_item G l p o ;; guard (negb (existsb is_deferred bs)) (o_nid o) Other ;;; Ok (value_types bs)
   | NFld n' f =>
       o <- obj_name G n' ;;
       match snd o with
@@ -546,7 +548,8 @@ with root_elems (G : env) (i : nid) (el : sty) (n : nat) (els : args) {struct el
   | ACons _ e _ => Bad (head_nid e) Conservative
   end
 (* For a call with exactly one candidate of fitting shape the (positional) actual that does not fit is blamed,
-   recursively; if all fit, the call (its result type is wrong); with several or no candidates the callee. *)
+   recursively; if all fit, the call (its result type is wrong); with several candidates of which the actuals
+   single one out, the call (result type); otherwise the callee: no overload matches. *)
 with blame (G : env) (t : sty) (e : expr) {struct e} : nid * cls :=
   match e with
   | ECall f a =>
@@ -554,7 +557,12 @@ with blame (G : env) (t : sty) (e : expr) {struct e} : nid * cls :=
       | Ok bs, Ok al =>
           match filter (fun c => shape_ok (fst c) al) (funs_of bs) with
           | [c] => blame_args G (map ps_ty (fst c)) a (o_nid (fname_occ f))
-          | _ => blame_leaf e
+          | cs =>
+              (* several candidates of fitting shape: if the actuals single one out, its result type is wrong *)
+              match filter (fun c => negb (Nat.eqb (call_ways (fst c) al) 0)) cs with
+              | [c] => (o_nid (fname_occ f), TypeMismatch)
+              | _ => blame_leaf e
+              end
           end
       | _, _ => blame_leaf e
       end
@@ -1042,7 +1050,10 @@ Definition check_unit (md : mode) (GE : genv) (LIBS : list ident) (lib : ident) 
       G0 <- check_ctx GE LIBS (env0 uid) (u_ctx u) ;;
       Gg <- declare_ifaces md GE KConst (set_home G0 (Some (lib, o_id o))) gs ;;
       G1 <- check_decls md GE RGen [] Gg ds ;;
-      Ok (GEntry lib (o_id o) (GGen (map (iface_sig GE Gg) gs) (undefer_all (e_cur G1)) G1 (flat_map (decl_obligation GE G1) ds)))
+      (* the generics are not among the declarations an instance exports *)
+      Ok (GEntry lib (o_id o) (GGen (map (iface_sig GE Gg) gs)
+                                    (fun y => if existsb (fun i => o_id (i_occ i) =? y) gs then [] else undefer_all (e_cur G1) y)
+                                    G1 (flat_map (decl_obligation GE G1) ds)))
   | UBody o ds =>
       match (if o_id o =? id_undeclared then None else find_unit GE lib (o_id o)) with
       | Some (GPkg _ inner obl) | Some (GGen _ _ inner obl) =>
